@@ -55,7 +55,7 @@ def run(tier, seed, res):
     wr = core.run_workers(PROP, jobs)
     res.absorb(wr, "rc")
     collect(res, wr)
-    iters = 1500 if quick else 200000
+    iters = 3000 if quick else 400000
     jobs = [dict(cmd=[b, "stress", str(t), str(iters), str(seed * 17 + t)], tag="stress") for t in (2, 4, 8, 15)]
     wr = core.run_workers(PROP, jobs, max_parallel=2)
     res.absorb(wr, "stress")
